@@ -186,7 +186,7 @@ def _returns_reachable_avoiding(b, avoid):
 def r4(ctx):
     f = ctx.find(path="barter::engine::state::position::calculate_pnl_unrealised")
     b = ctx.body(f)
-    names = [b.locals[i]["name"] for i in range(1, b.argc + 1)]
+    names = [b.param_name(i) for i in range(1, b.argc + 1)]
     want_names = ["position_side", "price_entry_average", "quantity_abs", "quantity_abs_max", "fees_enter", "price"]
     ctx.check("calculate_pnl_unrealised", names == want_names, "parameter roles", got=names, want=want_names, key="params")
     q, e, qm, fe, p = sympy.symbols("quantity_abs price_entry_average quantity_abs_max fees_enter price")
